@@ -191,7 +191,7 @@ def arg_setup(arg, v):
                 "av", "let post: Vec<i64> = vec![];")
     if arg == "result":
         val = ["Ok(3)", "Err(9)"][v]
-        return "let av: Result<u64, u64> = %s; let sent_d = match av { Ok(v) => v as i64, Err(e) => -(e as i64) }; let sent_addr = 0i64;" % val, "av", "let post: Vec<i64> = vec![];"
+        return "let av: core::result::Result<u64, u64> = %s; let sent_d = match av { Ok(v) => v as i64, Err(e) => -(e as i64) }; let sent_addr = 0i64;" % val, "av", "let post: Vec<i64> = vec![];"
     if arg == "into":
         val = ["7u32", "u32::MAX"][v]
         return "let av: u32 = %s; let sent_d = av as i64; let sent_addr = 0i64;" % val, "av", "let post: Vec<i64> = vec![];"
@@ -228,6 +228,10 @@ def call_expr(recv, target, argx, mname="m"):
 def method_sig(d, mname="m"):
     aty = ARG_TY[d["arg"]]
     rty = RET_TY[d["ret"]]
+    if d["ret"] == "res1" and aty and aty.startswith("Result<"):
+        # the module has its own one-parameter `Result<T>` alias (as with `use std::io::Result`): the two-parameter type
+        # has to be written with its path there
+        aty = "core::result::" + aty
     return "fn %s(%s%s)%s" % (mname, RECV_DECL[d["recv"]], (", a: " + aty) if aty else "", (" -> " + rty) if rty else "")
 
 
